@@ -10,5 +10,6 @@ INVARIANTS
   BlocksAreFull
   PendingBounded
   AtMostOneHeader
+  HandlerAccounting
   FailureIsSticky
 CHECK_DEADLOCK FALSE
